@@ -149,7 +149,7 @@ static std::string unesc_nl(const std::string& s) { std::string o; for (size_t i
 static Outcome run_one(const Case& c, const std::string& dir, double wall_limit = 40) { launch(c, dir); pid_t pid = spawn(dir); auto t0 = std::chrono::steady_clock::now(); int st = 0; bool to = false; while (true) { pid_t w = waitpid(pid, &st, WNOHANG); if (w == pid) break; if (startup_done(dir)) { kill(pid, SIGKILL); waitpid(pid, &st, 0); break; } if (std::chrono::duration<double>(std::chrono::steady_clock::now() - t0).count() > wall_limit) { kill(pid, SIGKILL); waitpid(pid, &st, 0); to = true; break; } usleep(2000); } return classify(st, to, dir); }
 
 static void explore(Result& R) {
-    const bool th = R.args.thorough(); g_root = std::string(getenv("VERIF_DIR") ? getenv("VERIF_DIR") : ".") + "/build/run/C17-" + std::to_string(getpid()); fs::create_directories(g_root);
+    const bool th = R.args.thorough(); g_root = scratch_base() + "/C17-" + std::to_string(getpid()); fs::create_directories(g_root);
     if (g_main.empty() || access(g_main.c_str(), X_OK) != 0) { R.internal_error = "real main binary not available: " + g_main; return; }
     std::vector<Case> cases; std::string v1 = seed_vtk_tri(), x1 = seed_xml(false, 0.45), v2 = seed_vtk_poly(), x2 = seed_xml(true, 0.25);
     // 0 deviations: the seeds themselves must complete
